@@ -34,7 +34,8 @@ DERIVED = ["edge_node_connectivity", "face_edge_connectivity", "edge_face_connec
 FAMILIES = ["edge_node_connectivity", "face_edge_connectivity", "edge_face_connectivity", "node_face_connectivity",
             "face_face_connectivity", "face_lon", "face_areas", "bounds"]
 XYZ_OK = 10**9
-REPAIRED = "1 1 1 1 1 1"
+REPAIRED = "1 1 1 1 1 1 1"
+SINGLE_BLOCK = "1 1 0 0 1 1 1"  # Cfg.repaired with the Exodus fill test / start bookkeeping as they stand
 
 
 # --------------------------------------------------------------------------------------
@@ -117,9 +118,11 @@ def obs_vars(ds, skip=("grid_topology",)):
 
 
 def canon_vars(vs):
+    """what the correspondence compares of an export's variables: names and dimensions.  Which attributes travel
+    is not the property's business beyond 'the file can be written' (judged by Lean on the real export)."""
     d = {}
-    for n, dims, attrs in vs:
-        d.setdefault(n, (list(dims), sorted((k, int(kd)) for k, kd in attrs)))
+    for n, dims, _attrs in vs:
+        d.setdefault(n, list(dims))
     return d
 
 
@@ -164,8 +167,24 @@ def grid_faces(g, loc):
     return out
 
 
-def mesh_json(m):
-    return dict(faces=m.faces, xyz=m.xyz.tolist(), kind=m.kind, closed=bool(m.closed))
+def mesh_json(m, source="topology"):
+    """source: 'topology' = Grid.from_topology(node_lon, node_lat, face_node_connectivity) (lon/lat only);
+    'xyz' = Grid.from_face_vertices(Cartesian corner positions, latlon=False) (Cartesian only)"""
+    return dict(faces=m.faces, xyz=m.xyz.tolist(), kind=m.kind, closed=bool(m.closed), source=source)
+
+
+def build_grid(ux, m, source):
+    """the grid and the abstract mesh in the GRID's node numbering (a face-vertex source numbers its nodes itself)"""
+    if source != "xyz":
+        return meshes.to_grid(m, ux), m
+    verts = np.full((m.n_face, m.width, 3), float(INT_FILL))
+    for i, f in enumerate(m.faces):
+        verts[i, : len(f)] = m.xyz[f]
+    g = ux.Grid.from_face_vertices(verts, latlon=False)
+    t = np.asarray(g._ds["face_node_connectivity"].values)
+    xyz = np.stack([g._ds["node_x"].values, g._ds["node_y"].values, g._ds["node_z"].values], axis=-1)
+    m2 = meshes.AMesh([[int(v) for v in r if v != INT_FILL] for r in t], xyz, m.closed, m.kind + "+xyz")
+    return g, m2
 
 
 def mesh_from(j):
@@ -190,11 +209,20 @@ def execute(H, driver, stats=None):
     N, U = st["names"], st["U"]
     hit = (lambda k: stats.__setitem__(k, stats.get(k, 0) + 1)) if stats is not None else (lambda k: None)
     reset_module_state()
-    ms = [mesh_from(j) for j in H["meshes"]]
-    grids = [meshes.to_grid(m, ux) for m in ms]
+    ms0 = [mesh_from(j) for j in H["meshes"]]
+    built = [build_grid(ux, m, j.get("source", "topology")) for m, j in zip(ms0, H["meshes"])]
+    grids, ms = [b[0] for b in built], [b[1] for b in built]
     locs = [Locator(m) for m in ms]
+    init_vars = [obs_vars(g._ds, skip=()) for g in grids]
     failures, mismatches, steps = [], [], []
     model_ops, impl_outs = [], []
+    for gi, (m0, m) in enumerate(zip(ms0, ms)):
+        # a face-vertex source must describe the mesh it was given (that is the reader's property, C01)
+        if m is not m0:
+            ids = Locator(m0).ids(m.lon, m.lat)
+            if [[int(ids[v]) for v in f] for f in m.faces] != m0.faces:
+                mismatches.append(dict(relation="C07/source/face-vertices-grid-differs-from-input", step=-1))
+            hit("source:xyz")
     tmp = tempfile.mkdtemp(prefix="c07_")
 
     def fail(step, sig, what, impl=None, clauses=()):
@@ -215,9 +243,10 @@ def execute(H, driver, stats=None):
                 new = [v for v in obs_vars(g._ds, skip=()) if v[0] not in before]
                 model_ops.append(f"0 {gi} {N.vars(new)}")
                 impl_outs.append(None)
-                if not (np.array_equal(g._ds["face_node_connectivity"].values, m.table())
-                        and np.allclose(g._ds["node_lon"].values, m.lon, atol=1e-12)
-                        and np.allclose(g._ds["node_lat"].values, m.lat, atol=1e-12)):
+                same_pos = True
+                if "node_lon" in g._ds:
+                    same_pos = bool(np.abs(unit(g._ds["node_lon"].values, g._ds["node_lat"].values) - m.xyz).max() < 1e-9)
+                if not (np.array_equal(g._ds["face_node_connectivity"].values, m.table()) and same_pos):
                     mismatches.append(dict(relation="C07/frame/materialise-leaves-defining-variables", step=si))
                 continue
             # ---- encode ----
@@ -258,6 +287,12 @@ def execute(H, driver, stats=None):
                         names = {n for n, _, _ in vs} | {d for _, ds_, _ in vs for d in ds_}
                         missing = sorted({x for k, vv in topo if k not in ("cf_role", "long_name") for x in vv if x not in names})
                         what += f" (grid_topology names {missing}, absent from the dataset)"
+                        kinds = []
+                        if {"node_lon", "node_lat"} & set(missing):
+                            kinds.append("node-coordinates-absent")
+                        if set(missing) - {"node_lon", "node_lat"}:
+                            kinds.append("names-left-by-another-export")
+                        sig += "/" + "+".join(kinds)
                     fail(si, sig, what, obs, cl)
             elif fmt == "exodus":
                 blocks, b = [], 1
@@ -362,10 +397,28 @@ def execute(H, driver, stats=None):
                          res[3], res[1].split(","))
         # (c) the Lean model on the whole history
         base = split_topo(st["base"])
-        encg = " ".join([str(len(ms))] + [f"{enc_rows(m.rows())} {m.n_node} 0" for m in ms])
+        def ds0(m, iv):
+            names = [v[0] for v in iv]
+            extras = [v for v in iv if v[0] not in ("node_lon", "node_lat", "face_node_connectivity")]
+            return f"{enc_rows(m.rows())} {m.n_node} {int('node_lon' in names)} {N.vars(extras)}"
+
+        encg = " ".join([str(len(ms))] + [ds0(m, iv) for m, iv in zip(ms, init_vars)])
         ans = common.Tok(driver.ask("C07.run", REPAIRED, N.topo(base), encg, str(len(model_ops)), " ".join(model_ops)))
         model_outs = parse_outs(ans, N)
         final_tmpl = parse_topo(ans, N)
+        # the Exodus encoder as it stands (one full-width block, exodus_rt_single_block) is the other
+        # encoder with a proved round trip: accept whichever of the two the implementation is
+        exo = [i for i, (io, mo) in enumerate(zip(impl_outs, model_outs))
+               if io is not None and mo is not None and io[0] == "exodus" and canon_out(io) != canon_out(mo)]
+        if exo:
+            alt = parse_outs(common.Tok(driver.ask("C07.run", SINGLE_BLOCK, N.topo(base), encg, str(len(model_ops)),
+                                                   " ".join(model_ops))), N)
+            if all(alt[i] is not None and canon_out(impl_outs[i]) == canon_out(alt[i]) for i in exo):
+                for i in exo:
+                    model_outs[i] = alt[i]
+                hit("exodus-output-matches=single-full-width-block-model")
+        elif any(io is not None and io[0] == "exodus" for io in impl_outs):
+            hit("exodus-output-matches=blocks-by-size-model")
         for si, (io, mo) in enumerate(zip(impl_outs, model_outs)):
             if io is None or mo is None:
                 continue
@@ -490,6 +543,16 @@ def directed(rng):
         H.append(dict(meshes=[mixed, uni], ops=[["mat", 0, S], ["enc", 0, "ugrid", "to_xarray"], ["enc", 1, "ugrid", "to_xarray"]]))
     H.append(dict(meshes=[uni, mixed], ops=[["mat", 0, DERIVED], ["enc", 0, "ugrid", "encode_as"], ["enc", 1, "exodus", "to_xarray"],
                                             ["enc", 1, "ugrid", "to_xarray"], ["enc", 1, "scrip", "to_xarray"]]))
+    # two grids over the same mesh (same sizes of every dimension), and one grid exported before and after
+    # it grows: nothing keyed on sizes or on the grid object may carry over
+    for f in FMTS:
+        H.append(dict(meshes=[mixed, mixed], ops=[["mat", 0, ["edge_node_connectivity", "face_lon", "node_x"]], ["enc", 0, f, "to_xarray"],
+                                                  ["enc", 1, f, "to_xarray"]]))
+        H.append(dict(meshes=[three], ops=[["enc", 0, f, "to_xarray"], ["mat", 0, ["edge_lon", "face_face_connectivity", "bounds"]],
+                                           ["enc", 0, f, "to_xarray"]]))
+    H.append(dict(meshes=[uni, uni.renumber(rng)], ops=[["enc", 0, "ugrid", "to_xarray"], ["enc", 1, "ugrid", "to_xarray"],
+                                                        ["enc", 0, "exodus", "to_xarray"], ["enc", 1, "exodus", "to_xarray"],
+                                                        ["enc", 0, "scrip", "to_xarray"], ["enc", 1, "scrip", "to_xarray"]]))
     for f in FMTS:
         H.append(dict(meshes=[three], ops=[["enc", 0, f, "to_xarray"]]))
         H.append(dict(meshes=[uni], ops=[["enc", 0, f, "to_xarray"]]))
@@ -499,7 +562,16 @@ def directed(rng):
     H.append(dict(meshes=[uni, uni], ops=[["enc", 0, "exodus", "to_xarray"], ["mat", 1, ["node_x"]], ["enc", 1, "exodus", "to_xarray"]]))
     H.append(dict(meshes=[meshes.prism(9)], ops=[["enc", 0, "exodus", "to_xarray"]]))
     H.append(dict(meshes=[meshes.prism(10)], ops=[["enc", 0, "ugrid", "to_xarray"], ["enc", 0, "scrip", "to_xarray"]]))
-    return [dict(meshes=[mesh_json(m) for m in h["meshes"]], ops=h["ops"]) for h in H]
+    out = [dict(meshes=[mesh_json(m) for m in h["meshes"]], ops=h["ops"]) for h in H]
+    # Cartesian-only sources (no node_lon/node_lat in the dataset until something asks for them)
+    for m in (uni, mixed, three):
+        for f in FMTS:
+            out.append(dict(meshes=[mesh_json(m, "xyz")], ops=[["enc", 0, f, "to_xarray"]]))
+        out.append(dict(meshes=[mesh_json(m, "xyz")], ops=[["enc", 0, "scrip", "to_xarray"], ["enc", 0, "ugrid", "to_xarray"],
+                                                           ["mat", 0, ["edge_node_connectivity", "face_lon"]], ["enc", 0, "ugrid", "encode_as"]]))
+    out.append(dict(meshes=[mesh_json(mixed, "xyz"), mesh_json(uni)], ops=[["mat", 0, DERIVED], ["enc", 0, "ugrid", "to_xarray"],
+                                                                           ["enc", 1, "ugrid", "to_xarray"], ["enc", 0, "exodus", "to_xarray"]]))
+    return out
 
 
 def random_history(rng, big=False):
@@ -515,7 +587,7 @@ def random_history(rng, big=False):
             n_enc += 1
     if n_enc == 0:
         ops.append(["enc", rng.randrange(ng), rng.choice(FMTS), api(rng)])
-    return dict(meshes=[mesh_json(m) for m in ms], ops=ops)
+    return dict(meshes=[mesh_json(m, "xyz" if rng.random() < 0.25 else "topology") for m in ms], ops=ops)
 
 
 def subset_histories(rng, count=None):
@@ -526,7 +598,8 @@ def subset_histories(rng, count=None):
     out = []
     for S in subs:
         m = pick_mesh(rng, cls=rng.choice(["two", "three", "uniform4", "partial"]))
-        out.append(dict(meshes=[mesh_json(m)], ops=([["mat", 0, S]] if S else []) + [["enc", 0, f, "to_xarray"] for f in FMTS]))
+        out.append(dict(meshes=[mesh_json(m, "xyz" if rng.random() < 0.2 else "topology")],
+                        ops=([["mat", 0, S]] if S else []) + [["enc", 0, f, "to_xarray"] for f in FMTS]))
     return out
 
 
@@ -540,13 +613,19 @@ def sub_history(H, step):
     return dict(meshes=[H["meshes"][gi]], ops=ops)
 
 
-def report(ctx, H, res, shrink=True):
+def report(ctx, H, res, collect=True):
+    """failures of one history.  In a generated run they are collected per signature (with a cheap in-process
+    attempt at a smaller history) and settled by `finalize`; in a replay they are reported at once."""
     for f in res["failures"]:
         inp = dict(history=dict(meshes=H["meshes"], ops=H["ops"][: f["step"] + 1]), failing_step=f["step"])
-        if shrink and f["signature"] not in ctx.extra.setdefault("_shrunk", set()):
-            ctx.extra["_shrunk"].add(f["signature"])
-            for cand in (dict(meshes=[H["meshes"][H["ops"][f["step"]][1]]], ops=[[H["ops"][f["step"]][0], 0] + H["ops"][f["step"]][2:]]),
-                         sub_history(H, f["step"])):
+        if not collect:
+            ctx.fail(f["signature"], f["what"], inp, f["implementation"], None, f["clauses"])
+            continue
+        cands = ctx.extra.setdefault("_cands", {}).setdefault(f["signature"], [])
+        ctx.hit("failing-steps")
+        if not cands:  # first occurrence: try the failing grid alone
+            op = H["ops"][f["step"]]
+            for cand in (dict(meshes=[H["meshes"][op[1]]], ops=[[op[0], 0] + op[2:]]), sub_history(H, f["step"])):
                 if len(cand["ops"]) >= len(inp["history"]["ops"]) and len(cand["meshes"]) >= len(inp["history"]["meshes"]):
                     continue
                 try:
@@ -555,11 +634,82 @@ def report(ctx, H, res, shrink=True):
                     continue
                 hitf = [g for g in r2["failures"] if g["signature"] == f["signature"]]
                 if hitf:
-                    inp = dict(history=cand, failing_step=hitf[0]["step"])
+                    cands.append(dict(f, input=dict(history=cand, failing_step=hitf[0]["step"])))
                     break
-        ctx.fail(f["signature"], f["what"], inp, f["implementation"], None, f["clauses"])
+        cands.append(dict(f, input=inp))
     for mm in res["mismatches"]:
         ctx.mismatch(mm["relation"], dict(history=H, step=mm.get("step")), mm.get("implementation"), mm.get("model"))
+
+
+_CONFIRM = """
+import sys, json, warnings
+warnings.filterwarnings('ignore')
+sys.path.insert(0, %r)
+from harness import common, c07
+common.use_repo()
+d = common.Driver('C07')
+c07._state()
+r = c07.execute(json.load(open(sys.argv[1])), d)
+d.close()
+print('SIGS=' + json.dumps([f['signature'] for f in r['failures']]))
+"""
+
+
+def confirm_fresh(history, signature):
+    """does the history alone, in a fresh interpreter, fail with this signature?  (module-level state that
+    an earlier history of this process may have left behind cannot help it there)"""
+    import subprocess
+    import sys
+
+    tmp = tempfile.mkdtemp(prefix="c07_confirm_")
+    try:
+        fn = os.path.join(tmp, "h.json")
+        with open(fn, "w") as fh:
+            json.dump(history, fh)
+        p = subprocess.run([sys.executable, "-c", _CONFIRM % str(common.VERIF), fn], capture_output=True, text=True,
+                           timeout=600, cwd=str(common.VERIF))
+        for line in p.stdout.splitlines():
+            if line.startswith("SIGS="):
+                return signature in json.loads(line[5:])
+        return None
+    except Exception:
+        return None
+    finally:
+        shutil.rmtree(tmp, ignore_errors=True)
+
+
+def finalize(ctx):
+    """one replay per signature, the smallest history that reproduces the failure in a fresh process"""
+    from concurrent.futures import ThreadPoolExecutor
+
+    cands = ctx.extra.pop("_cands", {})
+    known = {f["signature"] for f in common.load_known().get("findings", []) if f.get("property") == ctx.prop}
+
+    def settle(item):
+        sig, cs = item
+        cs = sorted(cs, key=lambda c: len(json.dumps(common._jsonable(c["input"]))))
+        uniq = []
+        for c in cs:
+            if all(c["input"] != u["input"] for u in uniq):
+                uniq.append(c)
+        if sig in known:
+            return sig, uniq[0], "not-needed (listed finding)"
+        tried = uniq[:3] + ([uniq[-1]] if len(uniq) > 3 else [])
+        for c in tried:
+            ok = confirm_fresh(c["input"]["history"], sig)
+            if ok:
+                return sig, c, True
+            if ok is None:
+                return sig, c, "confirmation-could-not-run"
+        return sig, tried[-1], False
+
+    with ThreadPoolExecutor(max_workers=6) as ex:
+        for sig, c, conf in ex.map(settle, sorted(cands.items())):
+            inp = dict(c["input"], reproduces_in_fresh_process=conf)
+            what = c["what"]
+            if conf is False:
+                what += " [seen only after earlier histories of the same process: module-level state carried over; replay the whole check]"
+            ctx.fail(sig, what, inp, c["implementation"], None, c["clauses"])
 
 
 def run_history(ctx, H, tag):
@@ -573,14 +723,15 @@ def run_history(ctx, H, tag):
     for s in res["steps"]:
         nontriv = s["qual"] != "uniform-size" or len(H["ops"]) > 1
         ctx.case((hh, s["step"]), nontrivial=nontriv,
-                 sample=dict(ops=H["ops"], mesh_sizes=[sorted({len(f) for f in j["faces"]}) for j in H["meshes"]], step=s)
+                 sample=dict(ops=H["ops"], mesh_sizes=[sorted({len(f) for f in j["faces"]}) for j in H["meshes"]],
+                             sources=[j.get("source", "topology") for j in H["meshes"]], step=s)
                  if len(H["ops"]) <= 3 else None)
     report(ctx, H, res)
 
 
 def run(ctx):
     ctx.rule = ("histories [materialise S on g_i | encode g_j as ugrid/exodus/scrip via to_xarray or encode_as] over 1-3 grids "
-                "(harness/meshes generators: uniform tri/quad, prisms/antiprisms (two sizes), split prisms and merged duals "
+                "(harness/meshes generators, built by Grid.from_topology (lon/lat only) or Grid.from_face_vertices (Cartesian only): uniform tri/quad, prisms/antiprisms (two sizes), split prisms and merged duals "
                 "(three or more sizes), partial lattices/fans/isolated faces, random renumbering/rotation; sizes 3..8, plus 9-/10-gons), "
                 "directed histories for each mechanism + random histories (+ subsets of the eight derived families); every "
                 "export re-opened directly and after to_netcdf to a mkdtemp scratch file; one case = one encode step; "
@@ -592,15 +743,25 @@ def run(ctx):
         "history so that every replay is self-contained; leakage inside a history is what is tested",
         "the readers are those of the tree under test (property C01); a failure of a correct export to re-open is attributed to the reader in the signature",
     ]
-    _state()
+    st = _state()
     rng = ctx.rng
+    # the regenerated Lean table is the live module's template (translator tie)
+    N = st["names"]
+    lean_tmpl = parse_topo(common.Tok(ctx.driver.ask("C07.template")), N)
+    if dict(lean_tmpl) != dict(split_topo(st["base"])):
+        ctx.mismatch("C07/translator/BASE_GRID_TOPOLOGY_ATTRS", dict(module=st["base"]), dict(split_topo(st["base"])), dict(lean_tmpl))
+    # minimised past failures first
+    cdir = common.CORPUS / "C07"
+    if cdir.is_dir():
+        for f in sorted(cdir.glob("*.json")):
+            run_history(ctx, json.loads(f.read_text())["history"], "corpus")
     for H in directed(rng):
         run_history(ctx, H, "directed")
-    for _ in range(ctx.n(24, 260)):
+    for _ in range(ctx.n(24, 1200)):
         run_history(ctx, random_history(rng, big=ctx.thorough), "random")
     for H in subset_histories(rng, None if (ctx.thorough or ctx.escalate) else 10):
         run_history(ctx, H, "subsets")
-    ctx.extra.pop("_shrunk", None)
+    finalize(ctx)
 
 
 def replay(ctx, rp):
@@ -609,4 +770,4 @@ def replay(ctx, rp):
     res = execute(H, ctx.driver)
     for s in res["steps"]:
         ctx.case(("replay", s["step"]))
-    report(ctx, H, res, shrink=False)
+    report(ctx, H, res, collect=False)
